@@ -431,3 +431,46 @@ pub proof fn lemma_splice_out<P: Prefix, T>(t: Seq<Node<P, T>>, live: ISet<int>,
         }
     }
 }
+
+// ---- wrappers in terms of the opaque twf_live (used from executable code) ----
+
+pub proof fn lemma_same_shape_wf<P: Prefix, T>(t: Seq<Node<P, T>>, live: ISet<int>, t2: Seq<Node<P, T>>)
+    requires
+        twf_live(t, live),
+        t2.len() == t.len(),
+        forall|j: int| 0 <= j < t.len() ==> #[trigger] same_shape_at(t, t2, j),
+    ensures twf_live(t2, live)
+{
+    let par = lemma_twf_par(t, live);
+    lemma_relink_same(t, live, par, t2);
+    lemma_twf_intro(t2, live);
+}
+
+pub proof fn lemma_unlink_leaf_wf<P: Prefix, T>(t: Seq<Node<P, T>>, live: ISet<int>, t2: Seq<Node<P, T>>, p: int, s: bool, x: int)
+    requires
+        twf_live(t, live),
+        live.contains(p), is_child(t, p, s, x),
+        t[x].left.is_none(), t[x].right.is_none(),
+        frame_shape(t, t2, p, x, x), t2.len() == t.len(),
+        kb(t2, p) == kb(t, p),
+        chd(t2, p, s).is_none(), chd(t2, p, !s) == chd(t, p, !s),
+    ensures twf_live(t2, live.remove(x)), x != 0, x != p, live.contains(x)
+{
+    let par = lemma_twf_par(t, live);
+    lemma_unlink_leaf(t, live, par, t2, p, s, x);
+    lemma_twf_intro(t2, live.remove(x));
+}
+
+pub proof fn lemma_splice_out_wf<P: Prefix, T>(t: Seq<Node<P, T>>, live: ISet<int>, t2: Seq<Node<P, T>>, g: int, gs: bool, p: int, cs: bool, c: int)
+    requires
+        twf_live(t, live),
+        live.contains(g), is_child(t, g, gs, p), is_child(t, p, cs, c), chd(t, p, !cs).is_none(),
+        frame_shape(t, t2, g, p, p), t2.len() == t.len(),
+        kb(t2, g) == kb(t, g),
+        is_child(t2, g, gs, c), chd(t2, g, !gs) == chd(t, g, !gs),
+    ensures twf_live(t2, live.remove(p)), p != 0, p != g, live.contains(p), live.contains(c), c != p, c != g
+{
+    let par = lemma_twf_par(t, live);
+    lemma_splice_out(t, live, par, t2, g, gs, p, cs, c);
+    lemma_twf_intro(t2, live.remove(p));
+}
